@@ -342,6 +342,49 @@ def c04_stream(inputs, doc):
     return None
 
 
+def _check_chunks(chunks):
+    from rsocket.frame_parser import FrameParser
+    p = FrameParser()
+    got, ok = [], True
+    for c in chunks:
+        fr, done = _drive(p.receive_data(bytes(c)))
+        ok = ok and done
+        got += [type(f).__name__ for f in fr]
+    recs, rest = _split_spec(b''.join(bytes(c) for c in chunks))
+    exp = _expected_outputs(recs)
+    if not ok or got != exp or bytes(p._buffer) != rest:
+        return dict(reads=[bytes(c).hex() for c in chunks], observed=got, expected=exp, rest_observed=bytes(p._buffer).hex()[:80],
+                    rest_expected=rest.hex()[:80], terminated=ok)
+    return None
+
+
+def c04_chunks(inputs, doc):
+    """Feed the reads of the counter-model (and every 2- and 3-way chunking of short valid/malformed streams) to a REAL parser
+    made by its own __init__ and compare with the splitter applied to the concatenation."""
+    import itertools
+    reads = [inputs[k] for k in sorted(inputs) if k.startswith('read[')]
+    if reads:
+        bad = _check_chunks(reads)
+        if bad:
+            return bad
+    from rsocket.frame_builders import to_cancel_frame, to_request_n_frame
+    from rsocket.frame import serialize_with_frame_size_header
+    ok1 = serialize_with_frame_size_header(to_cancel_frame(3))
+    ok2 = serialize_with_frame_size_header(to_request_n_frame(5, 7))
+    junk = b'\x00\x00\x02\xff\xff'
+    empty = b'\x00\x00\x00'
+    for seq in ([junk, ok1], [ok1, junk, ok2], [empty, ok1], [junk, junk, ok1], [ok1, ok2], [junk, ok1, ok2]):
+        s = b''.join(seq)
+        for a, b in itertools.combinations(range(len(s) + 1), 2):
+            bad = _check_chunks([s[:a], s[a:b], s[b:]])
+            if bad:
+                return bad
+        bad = _check_chunks([s[i:i + 1] for i in range(len(s))])
+        if bad:
+            return bad
+    return None
+
+
 def c04_message(inputs, doc):
     from rsocket.frame_parser import FrameParser
     cands = [inputs.get('data', b''), b'', b'\x00']
